@@ -3,6 +3,7 @@ import ast, math, os
 import numpy as np
 from hypothesis import strategies as st, assume
 
+from ..fuzz import fuzzed, CHEAP_MODULES
 from ..core import Obligation, Out, REPO
 from .. import cat, cogcat, allsolvers
 from ..strat import uni, logu, pos
@@ -441,3 +442,5 @@ OBLIGATIONS = [
     Obligation('out-of-domain-requests', ood_case(), check_ood, quick=300, thorough=6000),
     Obligation('valid-requests-are-finite', valid_case(), check_valid, quick=900, thorough=40000),
 ]
+# coverage-guided supplement (atheris / libFuzzer over the same strategy and oracle; see vp/fuzz.py)
+OBLIGATIONS.append(fuzzed([o for o in OBLIGATIONS if o.name == 'documented-restrictions'][0], quick=3000, thorough=100000, modules=CHEAP_MODULES, min_per_shard=1500))
